@@ -83,17 +83,53 @@ def rule_failed_notice(ctx, rep):
         "otherwise, both looked up with the codemod's id",
         min_instances=2,
     )
+    from ..logic import consistent_assignments_state
+
     fn = ctx.prog.func(CTX + ".add_description")
     fa = ctx.flow(fn)
+    r = ctx.resolver(fn)
+    pp = fn.positional_params()
+    P = pp[1] if len(pp) > 1 else "codemod"
+
+    def keyed_lookup(e, attr):
+        """self.<attr>.get(<codemod>.id[, default]) / self.<attr>[<codemod>.id], possibly wrapped in list()/set()/sorted()"""
+        while isinstance(e, ast.Call) and isinstance(e.func, ast.Name) and e.func.id in ("list", "tuple", "set", "sorted") and len(e.args) == 1:
+            e = e.args[0]
+        key = None
+        if isinstance(e, ast.Call) and isinstance(e.func, ast.Attribute) and e.func.attr == "get" and e.args:
+            recv, key = e.func.value, e.args[0]
+        elif isinstance(e, ast.Subscript):
+            recv, key = e.value, e.slice
+        else:
+            return False
+        return isinstance(recv, ast.Attribute) and recv.attr == attr and unparse(recv.value) == "self" and unparse(key) == f"{P}.id"
+
+    def atom(e):
+        if isinstance(e, ast.Name):
+            x = r.expand(e)
+            if x is not e and not isinstance(x, ast.Name):
+                return x
+        if isinstance(e, ast.NamedExpr):
+            return e.value
+        if keyed_lookup(e, "dependencies"):
+            return "DEPS"
+        if keyed_lookup(e, "_dependency_update_by_codemod"):
+            return "UPDATED"
+        if isinstance(e, ast.Compare) and len(e.ops) == 1 and isinstance(e.comparators[0], ast.Constant) and e.comparators[0].value is None:
+            inner = atom(e.left)
+            if isinstance(inner, ast.AST):
+                inner = atom(inner)
+            if isinstance(inner, str):
+                return ("!" + inner) if isinstance(e.ops[0], ast.Is) else inner
+        return None
+
     names = {"build_dependency_notification": True, "build_failed_dependency_notification": False}
     for cname, pol_want in names.items():
         calls = [n for n in walk_no_nested(fn.node) if isinstance(n, ast.Call) and last_attr(n.func) == cname]
         ok = bool(calls)
         for c in calls:
-            facts = fa.must_at(c)
-            keyed = any("_dependency_update_by_codemod.get(codemod.id)" in txt.replace(" ", "") and pol == pol_want for pol, txt in facts)
-            deps = any(pol and "self.dependencies.get(codemod.id" in txt.replace(" ", "") for pol, txt in facts)
-            ok = ok and keyed and deps
+            envs = consistent_assignments_state(fa.state_at(c), atom, ["DEPS", "UPDATED"])
+            ok = ok and envs == [{"DEPS": True, "UPDATED": pol_want}]
         rep.check("R-FAILED-NOTICE", fn.qname, fn.loc(calls[0]) if calls else fn.loc(), ok, cname,
                   f"{cname} is not issued under the {'recorded' if pol_want else 'missing'} dependency update of this codemod id")
     pd = ctx.prog.func(CTX + ".process_dependencies")
